@@ -1,6 +1,8 @@
 package main
 
 import (
+	"golang.org/x/tools/go/ssa"
+	"regexp"
 	"bytes"
 	"context"
 	"fmt"
@@ -32,7 +34,7 @@ func (e *Enc) BackgroundFor(o *Obligation) string {
 	// recursive spec definitions are only unfolded where folds are established: loop-invariant and lemma obligations.
 	// Everywhere else the functions are uninterpreted (their values flow through the invariants), which keeps the
 	// solver from unrolling them without end.
-	return e.backgroundD(o.N, o.Class == "inv-entry" || o.Class == "inv-step" || o.Class == "lemma")
+	return e.backgroundO(o.N, o.Class == "inv-entry" || o.Class == "inv-step" || o.Class == "lemma", o)
 }
 
 // Background returns the SMT text with every assertion of the function (used for dumps).
@@ -40,15 +42,86 @@ func (e *Enc) Background() string { return e.backgroundD(len(e.asserts), true) }
 
 func (e *Enc) background(n int) string { return e.backgroundD(n, true) }
 
-func (e *Enc) backgroundD(n int, defsOn bool) string {
+func (e *Enc) backgroundD(n int, defsOn bool) string { return e.backgroundO(n, defsOn, nil) }
+
+var nameTokRe = regexp.MustCompile(`[a-z]+_[0-9]+`)
+
+// selectAsserts: the assertions an obligation is posed against. Dropping an assumption is always sound; two kinds are
+// dropped to keep the queries small: (1) facts produced while encoding a block that cannot precede the obligation's
+// block (back edges removed), (2) definitions of names nothing selected mentions.
+func (e *Enc) selectAsserts(n int, o *Obligation) []string {
+	if n > len(e.asserts) {
+		n = len(e.asserts)
+	}
+	if o == nil || o.Blk == nil || len(e.assertBlk) < n {
+		return e.asserts[:n]
+	}
+	anc := map[*ssa.BasicBlock]bool{o.Blk: true}
+	stack := []*ssa.BasicBlock{o.Blk}
+	for len(stack) > 0 {
+		b := stack[len(stack)-1]
+		stack = stack[:len(stack)-1]
+		for _, p := range b.Preds {
+			if b.Dominates(p) { // back edge
+				continue
+			}
+			if !anc[p] {
+				anc[p] = true
+				stack = append(stack, p)
+			}
+		}
+	}
+	keep := make([]bool, n)
+	defIdx := map[string]int{}
+	var work []string
+	for i := 0; i < n; i++ {
+		if e.assertDef[i] != "" {
+			defIdx[e.assertDef[i]] = i
+			continue
+		}
+		if e.assertBlk[i] == nil || anc[e.assertBlk[i]] {
+			keep[i] = true
+			work = append(work, e.asserts[i])
+		}
+	}
+	work = append(work, o.Goal, o.Guard)
+	seen := map[string]bool{}
+	for len(work) > 0 {
+		t := work[len(work)-1]
+		work = work[:len(work)-1]
+		for _, nm := range nameTokRe.FindAllString(t, -1) {
+			if seen[nm] {
+				continue
+			}
+			seen[nm] = true
+			if i, ok := defIdx[nm]; ok && !keep[i] {
+				keep[i] = true
+				work = append(work, e.asserts[i])
+			}
+		}
+	}
+	var out []string
+	for i := 0; i < n; i++ {
+		if keep[i] {
+			out = append(out, e.asserts[i])
+		}
+	}
+	return out
+}
+
+func (e *Enc) backgroundO(n int, defsOn bool, o *Obligation) string {
 	var b strings.Builder
+	var facts []string
+	if !e.noFacts {
+		facts = e.factsFor() // before the declarations are written: evaluating a fact may declare a function
+	}
 	b.WriteString(preludeSMT)
 	if e.needFP {
 		b.WriteString(fpPrelude)
 	}
 	if e.needB {
 		b.WriteString(bytesPrelude)
-		if e.ct != nil && e.ct.Opts["bytes-le-defs"] != "" {
+		if e.noFacts || e.ct != nil && e.ct.Opts["bytes-le-defs"] != "" {
 			b.WriteString(bytesLEDefs)
 		}
 	}
@@ -82,10 +155,10 @@ func (e *Enc) backgroundD(n int, defsOn bool) string {
 	for _, d := range e.decls {
 		b.WriteString(d + "\n")
 	}
-	if n > len(e.asserts) {
-		n = len(e.asserts)
+	for _, f := range facts {
+		b.WriteString("(assert " + f + ")\n")
 	}
-	for _, a := range e.asserts[:n] {
+	for _, a := range e.selectAsserts(n, o) {
 		b.WriteString("(assert " + a + ")\n")
 	}
 	return b.String()
@@ -142,6 +215,9 @@ func runSolver(sp solverSpec, file string, timeoutS int) (status, out string, se
 // solveAll discharges obligations in parallel. Strategy per obligation: z3-new with the tier budget first; if it does not
 // answer unsat, the other two solvers are tried. In the thorough tier every unsat needs a second solver's agreement.
 var budgetOverride = 0
+
+// solverHints: obligation name -> solver to try first (from the baseline; scheduling only)
+var solverHints map[string]string
 
 func solveAll(outDir string, bg string, obls []*Obligation, tier string, workers int, seed int) []*Result {
 	budget := 10
@@ -230,6 +306,13 @@ func solveOne(outDir, bg string, o *Obligation, tier string, budget, seed int) *
 	if o.Class == "cover" {
 		// vacuity probes only look for a quick `unsat`; anything else means "not shown contradictory"
 		plan = []attempt{{solvers[0], 2}, {solvers[1], 2}}
+	}
+	if h := solverHints[o.Name]; h != "" && o.Class != "cover" {
+		for _, sp := range solvers {
+			if sp.name == h {
+				plan = append([]attempt{{sp, short}}, plan...)
+			}
+		}
 	}
 	order := solvers
 	var lastOut string
